@@ -35,12 +35,15 @@ ASSUMPTIONS = [
 ]
 
 EPS = 1e-9
-T_PTS = [-1.0, -EPS, 0.0, EPS, 1.0, 1e9]
+TINY = 5e-324  # the smallest positive double: a tolerance of any size in `time < 0` accepts -TINY
+T_PTS = [-1.0, -EPS, -TINY, 0.0, TINY, EPS, 1.0, 1e9]
 LEN_PTS = [0, 1, 2, 3, 4, 5, 6]
 
 
 def f_pts(MAX):
-    return [-1.0, -EPS, 0.0, EPS, 1.0, MAX - 1e-3, float(MAX), MAX + 1e-3, 2.0 * MAX]
+    import math
+    return [-1.0, -EPS, -TINY, 0.0, EPS, 1.0, MAX - 1e-3, math.nextafter(float(MAX), 0.0), float(MAX), math.nextafter(float(MAX), math.inf),
+            MAX + 1e-3, 2.0 * MAX]
 
 
 # specification transcribed from the property statement.  depth = nesting depth of the leaf (time, frequency) pair
